@@ -21,6 +21,8 @@ enum Case {
     Concat(Vec<Desc>),
     RawSizeByParams(usize),
     IntSizeByParams(usize, usize),
+    /// Structures of many megabytes (loaders may read them in pieces): kind and number of items.
+    Large(String, usize),
 }
 
 fn kind_of(d: &Desc) -> String {
@@ -212,6 +214,22 @@ fn small_scope(ctx: &mut Ctx) {
     }
 }
 
+/// Every wavelet matrix (and core) over small alphabets: levels whose support structures differ in size.
+fn small_wm_scope(ctx: &mut Ctx) {
+    let scopes: Vec<(usize, usize)> = if ctx.tier.is_thorough() { vec![(1, 9), (2, 6), (3, 4), (4, 3)] } else { vec![(1, 6), (2, 5), (3, 3)] };
+    for &(w, l) in &scopes {
+        vcore::enumr::words(1 << w, l, |word| {
+            let values: Vec<u64> = word.iter().map(|&x| x as u64).collect();
+            for d in [Desc::Wm(values.clone()), Desc::WmCore(values.clone())] {
+                if ctx.mine(&d) {
+                    ctx.count("small_scope_wavelet_matrices", 1);
+                    check_single(ctx, &d);
+                }
+            }
+        });
+    }
+}
+
 fn size_by_params(ctx: &mut Ctx) {
     let caps = [0usize, 1, 2, 63, 64, 65, 127, 128, 129, 1000, 4096];
     for &c in &caps {
@@ -230,6 +248,70 @@ fn size_by_params(ctx: &mut Ctx) {
     }
 }
 
+/// Round trip of one large value: exact sizes, exact consumption (with a sentinel behind it), equality.
+fn check_large_value<T: SdsSerialize + PartialEq + std::fmt::Debug>(ctx: &mut Ctx, kind: &str, n: usize, x: &T) {
+    let c = Case::Large(kind.to_string(), n);
+    let case = || json!({"x": c, "call": "serialize; load"});
+    let mut bytes: Vec<u8> = Vec::new();
+    let w = guard(|| x.serialize(&mut bytes).is_ok());
+    ctx.expect(|| format!("{}(large).serialize", kind), w, &true, case);
+    ctx.expect(|| format!("{}(large).size_in_elements/size_in_bytes", kind), guard(|| (x.size_in_elements() * 8, x.size_in_bytes())), &(bytes.len(), bytes.len()), case);
+    let own = bytes.len();
+    bytes.extend_from_slice(&0x5E47u64.to_le_bytes());
+    let got = guard(|| {
+        let mut r = std::io::Cursor::new(&bytes[..]);
+        let y = T::load(&mut r).map_err(|e| e.to_string())?;
+        Ok::<(bool, u64), String>((y == *x, r.position()))
+    });
+    ctx.expect(|| format!("{}(large).load[equal, exact consumption]", kind), got, &Ok((true, own as u64)), case);
+    // ... and through a reader that hands out 4095 bytes at a time
+    let got = guard(|| {
+        let mut r = ShortReader::new(&bytes[..], 4095);
+        let y = T::load(&mut r).map_err(|e| e.to_string())?;
+        let next = u64::load(&mut r).map_err(|e| e.to_string())?;
+        Ok::<(bool, u64), String>((y == *x, next))
+    });
+    ctx.expect(|| format!("{}(large).load[4095-byte reads]", kind), got, &Ok((true, 0x5E47)), case);
+}
+
+fn check_large(ctx: &mut Ctx, kind: &str, n: usize) {
+    let c = Case::Large(kind.to_string(), n);
+    ctx.announce(|| serde_json::to_value(&c).unwrap());
+    ctx.nontrivial(&c);
+    ctx.sample_tagged("large", || serde_json::to_value(&c).unwrap());
+    let val = |i: usize| (i as u64).wrapping_mul(0x9E37_79B9_7F4A_7C15) ^ 0x0123_4567_89AB_CDEF;
+    match kind {
+        "VecU64" => check_large_value(ctx, kind, n, &(0..n).map(val).collect::<Vec<u64>>()),
+        "VecPair" => check_large_value(ctx, kind, n, &(0..n).map(|i| (val(i), i as u64)).collect::<Vec<(u64, u64)>>()),
+        "Bytes" => check_large_value(ctx, kind, n, &(0..n).map(|i| val(i) as u8).collect::<Vec<u8>>()),
+        "IntVector37" => {
+            let mut v = IntVector::with_capacity(n, 37).unwrap();
+            for i in 0..n {
+                simple_sds::ops::Push::push(&mut v, val(i));
+            }
+            check_large_value(ctx, kind, n, &v)
+        }
+        "BitVector" => {
+            let mut raw = RawVector::with_capacity(n);
+            for i in 0..n / 64 {
+                unsafe { simple_sds::raw_vector::PushRaw::push_int(&mut raw, val(i), 64) };
+            }
+            for i in 0..n % 64 {
+                simple_sds::raw_vector::PushRaw::push_bit(&mut raw, i % 3 == 0);
+            }
+            let mut bv = BitVector::from(raw);
+            enable_all(&mut bv);
+            check_large_value(ctx, kind, n, &bv)
+        }
+        _ => panic!("replay: not a C06 case"),
+    }
+}
+
+/// Sizes around the piece sizes a loader might use (1 MiB, 2^20 items, 8 MiB).
+fn large_values() -> Vec<(&'static str, usize)> {
+    vec![("VecU64", (1 << 17) + 3), ("VecU64", (1 << 20) + 3), ("VecPair", (1 << 16) + 1), ("VecPair", (1 << 20) + 1), ("Bytes", (1 << 20) + 5), ("Bytes", (1 << 23) + 1), ("IntVector37", 1 << 21), ("BitVector", (1 << 26) + 70)]
+}
+
 fn explore(ctx: &mut Ctx) {
     vcore::model::self_check().expect("reference model self-check failed");
     let thorough = ctx.tier.is_thorough();
@@ -242,8 +324,15 @@ fn explore(ctx: &mut Ctx) {
         }
     }
     small_scope(ctx);
+    small_wm_scope(ctx);
     if ctx.mine_index(0) {
         size_by_params(ctx);
+    }
+    for (k, (kind, n)) in large_values().into_iter().enumerate() {
+        if ctx.mine_index(1000 + k as u64) {
+            ctx.count("large_values", 1);
+            check_large(ctx, kind, n);
+        }
     }
 
     // Concatenations: every ordered pair; thorough: every ordered triple over a 24-element sub-catalogue.
@@ -320,6 +409,7 @@ fn replay(ctx: &mut Ctx, v: &Value) {
         Case::Single(d) => check_single(ctx, &d),
         Case::Concat(ds) => check_concat(ctx, &ds, None),
         Case::RawSizeByParams(_) | Case::IntSizeByParams(..) => size_by_params(ctx),
+        Case::Large(kind, n) => check_large(ctx, &kind, n),
     }
 }
 
